@@ -151,7 +151,41 @@ func loadEngine(repo string) (*Engine, error) {
 			}
 		}
 	}
+	e.rekeyRenamedSyncMaps()
 	return e, nil
+}
+
+// rekeyRenamedSyncMaps: a `syncmap T.f` directive whose field was only renamed follows the field (see fieldAlias).
+func (e *Engine) rekeyRenamedSyncMaps() {
+	for _, k := range sortedKeys(e.cs.SyncMaps) {
+		i := strings.LastIndex(k, ".")
+		j := strings.LastIndex(k[:i], ".")
+		if i < 0 || j < 0 {
+			continue
+		}
+		t := e.lookupType(k[:j], k[j+1:i])
+		if t == nil {
+			continue
+		}
+		st, ok := t.Underlying().(*types.Struct)
+		if !ok {
+			continue
+		}
+		has := false
+		for f := 0; f < st.NumFields(); f++ {
+			if st.Field(f).Name() == k[i+1:] {
+				has = true
+			}
+		}
+		if has {
+			continue
+		}
+		if alias := fieldAlias(t, k[i+1:]); alias != "" {
+			e.cs.SyncMaps[k[:i+1]+alias] = e.cs.SyncMaps[k]
+			delete(e.cs.SyncMaps, k)
+			renamedFields[k[i+1:]+" is now "+alias+" in "+k[:i]] = true
+		}
+	}
 }
 
 func recvString(t types.Type) string {
